@@ -300,8 +300,10 @@ def lexer_check(ctx, gen_opts, ndefs, ninputs, projs, ctors=(0,), clone=False, n
             art = {"certificate": [c.cert_problem]}
         if art and not stream_viol:
             dist["artifact_diffs"] += 1
-            # search: more inputs for this definition against Spec
-            found = search_failing_input(ctx, c, projs, gen)
+            # search: more inputs for this definition against Spec (for the first few definitions that differ;
+            # a change that affects every definition would otherwise cost one compilation per definition)
+            ctx.searches = getattr(ctx, "searches", 0) + 1
+            found = search_failing_input(ctx, c, projs, gen) if ctx.searches <= 6 else False
             if not found:
                 st = sorted(art)[0]
                 ctx.broken("artifact:%s" % st, art[st][0], dict(describe(c), all_differences=art))
